@@ -38,3 +38,6 @@ CLAIMED['C08'] = (
     'AST->SMT (z3 strings) of shelve.util.construct and the subset selection predicate for all names within the length bound; CrossHair+z3 for the construct/dissect round trip on symbolic names; solver-enumerated histories on real shelve files',
     'Selection lemma: unsat for all name pairs within the length bound (translator validated on every run); histories bounded.', _BASE_NOTE, 'DESIGN.md section 4 C08')
 CLAIMED['C11'] = (_SCHED.replace('scheduler/farm', 'farm/worker hand-off'), _SCHED_TXT, _BASE_NOTE, 'DESIGN.md section 3 C11')
+_FSM = 'bounded-history symbolic exploration of the real life-cycle machine (state.FSM + transitions + state.dot, submit front end, dispatch archive branch) with CrossHair+z3: event schedule incl. completion of every background step = z3 selectors, exhausted within the bound'
+CLAIMED['C10'] = (_FSM, _SCHED_TXT, _BASE_NOTE, 'DESIGN.md section 5 C10')
+CLAIMED['C12'] = (_FSM, _SCHED_TXT, _BASE_NOTE, 'DESIGN.md section 5 C12')
